@@ -88,7 +88,7 @@ def _zero_run(C, V, pos):
         return k
     # the same run asked for twice on a path (callee contract and caller spec) is the same k
     probe = z3.Int('probe!zr')
-    key = (z3.simplify(sym._int_t(V.n)).sexpr(), z3.simplify(sym._b(V.bit(SInt(probe)))).sexpr(), z3.simplify(sym._int_t(pos)).sexpr())
+    key = (sym.canon_key(sym._int_t(V.n)), sym.canon_key(sym._b(V.bit(SInt(probe)))), sym.canon_key(sym._int_t(pos)))
     memo = c.__dict__.setdefault('zero_run_memo', {})
     if key in memo:
         return memo[key]
